@@ -13,6 +13,7 @@ from typing import (
     List,
     Optional,
     Sequence,
+    Set,
     Tuple,
     Type,
     Union,
@@ -1037,8 +1038,15 @@ class PDFDocument:
         parser: PDFParser,
         start: int,
         xrefs: List[PDFBaseXRef],
+        visited: Optional[Set[int]] = None,
     ) -> None:
         """Reads XRefs from the given location."""
+        # /Prev and /XRefStm may lead back to a section that has been read
+        if visited is None:
+            visited = set()
+        if start in visited:
+            return
+        visited.add(start)
         parser.seek(start)
         parser.reset()
         try:
@@ -1062,11 +1070,11 @@ class PDFDocument:
         log.debug("trailer: %r", trailer)
         if "XRefStm" in trailer:
             pos = int_value(trailer["XRefStm"])
-            self.read_xref_from(parser, pos, xrefs)
+            self.read_xref_from(parser, pos, xrefs, visited)
         if "Prev" in trailer:
             # find previous xref
             pos = int_value(trailer["Prev"])
-            self.read_xref_from(parser, pos, xrefs)
+            self.read_xref_from(parser, pos, xrefs, visited)
 
 
 class PageLabels(NumberTree):
